@@ -306,7 +306,7 @@ class DetermineBeta(Contract):
             p.prove(adaptive, f"pre[{q}]: adaptive or beta_step > 0", kind="precondition")
         floor = b + z3.If(m2 >= to_real(tol), m2, to_real(tol))
         p.assume(z3.Implies(adaptive, z3.Or(b2 == 1, b2 >= floor)), check=False)
-        p.event("determine_beta", samples, beta, R(b2))
+        p.event("determine_beta", samples, beta, R(b2), tol, ms)
         return Tup([R(b2), R(m2)])
 
 
@@ -735,6 +735,7 @@ class Sample(Contract):
                     z3.BoolVal(len(db) == 1 and db[0][1] is ph) if db else z3.BoolVal(False)))
         if len(db) == 1:
             out.append(("the new temperature is the one determine_beta returned", bn == to_real(db[0][3])))
+            out.append(("C07 the step search runs with the beta_tolerance given to sample()", to_real(db[0][4]) == g["tol"]))
         lr, lv = list_last(h.f["log_norm_ratio"]), list_last(h.f["log_norm_ratio_var"])
         out.append(("C08 appended ratio == LER(pre-resampling population, temperature actually used)", to_real(lr) == LER(d, b0, bn)))
         out.append(("C08 ratio series grows by exactly that one term", list_sum(h.f["log_norm_ratio"]) == p.ghost["SUM_HEAD"] + LER(d, b0, bn)))
